@@ -200,3 +200,81 @@ func ZvC20_Throttle_Concurrent() {
 	vrt.Assert(vrt.LocksHeld() == 0, "C20/Throttle/lock-released")
 	vrt.Quiesce()
 }
+
+// ZvC20_Debounce_Rearm: a debounced function that schedules the next one from inside itself (and
+// a cancel afterwards). The timer the inner call installs must stay under the debouncer's
+// control: after cancel nothing runs, without cancel the inner function runs exactly once.
+func ZvC20_Debounce_Rearm() {
+	wait := zvWait()
+	add, cancel := NewDebounce(time.Duration(wait))
+	outer, inner := 0, 0
+	var tInner int64
+	add(func() {
+		outer++
+		tInner = vrt.NowNano()
+		add(func() {
+			inner++
+			vrt.Assert(vrt.NowNano() >= tInner+wait, "C20/Debounce/rearmed-call-never-sooner-than-wait")
+		})
+	})
+	vrt.Advance() // the outer function may run now (and re-arm)
+	doCancel := vrt.Choice(2) == 1
+	ranBefore := inner
+	if doCancel {
+		cancel()
+	}
+	vrt.Advance()
+	vrt.Quiesce()
+	vrt.Assert(vrt.And(outer <= 1, inner <= 1), "C20/Debounce/at-most-once-per-call")
+	if doCancel {
+		vrt.Assert(inner == ranBefore, "C20/Debounce/nothing-runs-after-cancel (also for a call made from inside a debounced function)")
+	} else {
+		vrt.Assert(vrt.And(outer == 1, inner == 1), "C20/Debounce/does-run-if-no-further-call-or-cancel-arrives")
+	}
+	vrt.Assert(vrt.LocksHeld() == 0, "C20/Debounce/lock-released")
+}
+
+// ZvC20_Throttle_TwoConsumers: two consumers waiting in Next, one trigger: at most one of them is
+// granted; Cancel releases the other with false. Also: a single consumer calling Next three times
+// against two triggers gets at most two grants (a left-over wake-up grants nothing).
+func ZvC20_Throttle_TwoConsumers() {
+	period := zvWait()
+	trailing := vrt.Choice(2) == 1
+	t := NewThrottle(time.Duration(period), trailing)
+	grants := 0
+	if vrt.Choice(2) == 0 {
+		vrt.Par(func() {
+			if t.Next() {
+				grants++
+			}
+		}, func() {
+			if t.Next() {
+				grants++
+			}
+		}, func() {
+			t.Call()
+			vrt.Advance()
+			t.Cancel()
+		})
+		vrt.Assert(grants <= 1, "C20/Throttle/no-more-grants-than-triggers")
+	} else {
+		vrt.Par(func() {
+			for i := 0; i < 3; i++ {
+				if !t.Next() {
+					return
+				}
+				grants++
+			}
+		}, func() {
+			t.Call()
+			vrt.Advance()
+			t.Call()
+			vrt.Advance()
+			t.Cancel()
+		})
+		vrt.Assert(grants <= 2, "C20/Throttle/no-more-grants-than-triggers")
+	}
+	vrt.Assert(!t.Next(), "C20/Throttle/Next-false-after-cancel")
+	vrt.Assert(vrt.LocksHeld() == 0, "C20/Throttle/lock-released")
+	vrt.Quiesce()
+}
